@@ -4,7 +4,7 @@ import random
 
 from bcverif import encode as E
 from bcverif.props.c06 import cds_blocks, mk_tx
-from bcverif.runner import pmap, setup_repo_import
+from bcverif.runner import MachineryError, parse_prints, pmap, setup_repo_import
 
 BIN = 1 << 17
 IDENT_ATTRS = {"gene": ("gene_id", "gene_symbol", "locus_tag"),
@@ -211,6 +211,69 @@ def _events(args):
     return ev
 
 
+def _qchain_events(chains):
+    """Direction A: behaviours of CollSim (full bin scale, boundary coordinates) performed on real collections."""
+    setup_repo_import()
+    from inscripta.biocantor.gene.collections import AnnotationCollection
+    from inscripta.biocantor.gene.feature import FeatureInterval, FeatureIntervalCollection
+    from inscripta.biocantor.gene.gene import GeneInterval
+    from inscripta.biocantor.gene.variants import VariantInterval, VariantIntervalCollection
+    from inscripta.biocantor.location.strand import Strand
+
+    ev = []
+    steps = agree = 0
+    for h in chains:
+        c0 = h[0]
+        genes, fcs, vcs, order = [], [], [], []
+        for m in sorted(c0[2], key=lambda m: m[0]):
+            mid, kind, s, e, cdg, children = m
+            if kind == "gene":
+                txs = []
+                for ci, (cid, cs, ce) in enumerate(sorted(children)):
+                    blocks = [[cs, ce]]
+                    cds = [[cs, cs + 3 * ((ce - cs) // 3)]] if (cdg and ci == 0 and ce - cs >= 3) else None
+                    txs.append(mk_tx(blocks, "+", cds, None, transcript_id="t%d" % cid))
+                if cdg and all(t.cds is None for t in txs):
+                    continue
+                genes.append(GeneInterval(txs, gene_id="m%d" % mid))
+                order.append((mid, genes[-1]))
+            elif kind == "feature":
+                fcs.append(FeatureIntervalCollection([FeatureInterval([s], [e], Strand.PLUS, feature_name="f%d" % mid)],
+                                                     feature_collection_name="m%d" % mid))
+                order.append((mid, fcs[-1]))
+            else:
+                vcs.append(VariantIntervalCollection([VariantInterval(s, e, "A" * (e - s), "SNV", variant_name="v%d" % mid)],
+                                                     variant_collection_name="m%d" % mid))
+                order.append((mid, vcs[-1]))
+        try:
+            cur = AnnotationCollection(feature_collections=fcs, genes=genes, variant_collections=vcs, sequence_name="chr",
+                                       start=c0[0], end=c0[1])
+        except Exception:
+            continue
+        guid2mid = {o.guid: mid for mid, o in order}
+        ids = {}
+        for (q, want) in h[1:]:
+            qs, qe, co, cw, ex = q
+            pre = _project(cur, ids, False)
+            holder = []
+            o = E.outcome(lambda: holder.append(cur.query_by_position(qs, qe, coding_only=bool(co), completely_within=bool(cw),
+                                                                       expand_location_to_children=bool(ex))) or 1)
+            if not holder:
+                ev.append(["q", pre, "pos", [qs, qe, bool(co), bool(cw), bool(ex)], o, True, [], []])
+                break
+            res = holder[0]
+            post = _project(res, ids, False)
+            ev.append(["q", pre, "pos", [qs, qe, bool(co), bool(cw), bool(ex)], ["v", post], True, [], []])
+            steps += 1
+            got = sorted(guid2mid.get(m.guid, -1) for m in res.iter_children())
+            if got == sorted(want[2]) and [res.start, res.end] == [want[0], want[1]]:
+                agree += 1
+            if res.is_empty:
+                break
+            cur = res
+    return ev, steps, agree
+
+
 def _key(ev, clause):
     if clause == "id-query:widens-beyond-sequence-chunk":
         return "coll:id-query-widens-beyond-chunk"
@@ -226,6 +289,19 @@ def run(chk):
     n = 90 if quick else 1500
     parts = pmap(_events, [(chk.seed * 701 + i, n, i % 2 == 0) for i in range(32)])
     evs = [e for p in parts for e in p]
+    # direction A: chained boundary queries chosen by TLC at full bin scale, performed on real collections
+    r = chk.mc("CollSim", "CollSim.cfg", workers=1, simulate="num=%d" % (400 if quick else 6000),
+               extra=["-depth", "4", "-seed", str(chk.seed + 17)],
+               note="simulated chains of 3 range queries over bin-boundary coordinates at full scale (17,3,5); along every "
+                    "behaviour the pre-filter as the code applies it never changes the answer; emitted for replay")
+    chains = [c[0] for c in parse_prints(r["out"], "QCHAIN")]
+    if len(chains) < 100:
+        raise MachineryError("TLC emitted only %d query chains" % len(chains))
+    parts = pmap(_qchain_events, [chains[i::16] for i in range(16)])
+    evs += [e for p in parts for e in p[0]]
+    chk.extra["query_chains_replayed"] = len(chains)
+    chk.extra["algo_fidelity"] = {"real_steps": sum(p[1] for p in parts),
+                                  "answer_identical_to_model": sum(p[2] for p in parts)}
     chk.validate("C09Trace", evs, shard=600, label="queries", keyfn=_key)
     chk.nontrivial = len({str(e[1:4]) for e in evs})
     chk.extra["queries"] = {k: sum(1 for e in evs if e[2] == k) for k in ("pos", "guids", "iguids", "txguids",
